@@ -187,6 +187,7 @@ func (w *World) setupRawClientReverse() bool {
 	rs := &revServer{idx: 0, conn: t.conn}
 	rs.rs = grpctunnel.NewReverseTunnelServer(tunnelpb.NewTunnelServiceClient(t.conn), fcOpt(w.c.Cfg.ServerFC)...)
 	rs.rs.RegisterService(&svcDesc, &Instance{w: w, idx: 0})
+	rs.rs.RegisterService(&svcDescAlt, &Instance{w: w, idx: 0})
 	w.mu.Lock()
 	w.servers = append(w.servers, rs)
 	t.server = rs
